@@ -11,7 +11,12 @@ use std::num::NonZeroUsize;
 /// Flat, serialisable image of `flacenc::config::Encoder` (17 fields).
 #[derive(Serialize, Deserialize, Clone, Debug, PartialEq)]
 pub struct Cfg {
+    /// the block size REQUESTED (the argument of the entry points)
     pub block_size: usize,
+    /// the `block_size` field of the configuration when it differs from the request (0 = same); the
+    /// documented examples pass a default configuration (4096) with another block-size argument
+    #[serde(default)]
+    pub field_bs: usize,
     pub multithread: bool,
     pub workers: Option<usize>,
     pub use_leftside: bool,
@@ -35,6 +40,7 @@ pub struct Cfg {
 impl Default for Cfg {
     fn default() -> Self {
         Cfg {
+            field_bs: 0,
             block_size: 4096,
             multithread: false,
             workers: None,
@@ -59,7 +65,7 @@ impl Default for Cfg {
 impl Cfg {
     pub fn to_encoder(&self) -> config::Encoder {
         let mut e = config::Encoder::default();
-        e.block_size = self.block_size;
+        e.block_size = if self.field_bs != 0 { self.field_bs } else { self.block_size };
         e.multithread = self.multithread;
         e.workers = self.workers.and_then(NonZeroUsize::new);
         e.stereo_coding.use_leftside = self.use_leftside;
@@ -89,6 +95,7 @@ impl Cfg {
     pub fn from_encoder(e: &config::Encoder) -> Cfg {
         let s = &e.subframe_coding;
         Cfg {
+            field_bs: 0,
             block_size: e.block_size,
             multithread: e.multithread,
             workers: e.workers.map(NonZeroUsize::get),
@@ -320,6 +327,36 @@ pub fn channel(rng: &mut StdRng, family: &str, bps: usize, n: usize) -> Vec<i32>
             for (t, x) in v.iter_mut().enumerate() {
                 let a = if (t / period) % 2 == 0 { quiet } else { loud };
                 *x = rng.gen_range(-a..=a) as i32;
+            }
+        }
+        "wrap32" => {
+            // The folded samples (= Rice quotients at parameter 0 under the order-0 predictor) add up to
+            // 2^32 + delta: 32-bit accumulators of coded sizes wrap to a tiny value.  Needs 20/24 bit.
+            let foldmax = (1i64 << bps) - 1; // fold(-2^(bps-1))
+            let a = ((1i64 << 32) / foldmax) as usize;
+            let delta: i64 = [0i64, 1, 2, 100, 4096, -1, -300, 65536][rng.gen_range(0..8)];
+            let mult: i64 = if n >= 2 * a + 64 && rng.gen_bool(0.3) { 2 } else { 1 };
+            let a = a * mult as usize;
+            if n > a {
+                let mut r = mult * (1i64 << 32) - a as i64 * foldmax + delta;
+                let rest = n - a;
+                for (i, x) in v.iter_mut().enumerate() {
+                    if i < a {
+                        *x = -(1i32 << (bps - 1));
+                    } else {
+                        let left = (n - i) as i64;
+                        let f = if left == 1 { r } else { (r / left).min(foldmax) + i64::from(rng.gen_bool(0.5) && r / left + 1 <= foldmax && r > left) };
+                        let f = f.clamp(0, foldmax.min(r.max(0)));
+                        r -= f;
+                        *x = if f % 2 == 0 { (f / 2) as i32 } else { (-(f + 1) / 2) as i32 };
+                    }
+                }
+                let _ = rest;
+                if rng.gen_bool(0.5) {
+                    for i in (1..n).rev() {
+                        v.swap(i, rng.gen_range(0..=i));
+                    }
+                }
             }
         }
         "ricebump" => {
